@@ -45,3 +45,14 @@ claim("C02",
       "reference semantics is in reach of static analysis.",
       "Trusted: rustc MIR; Jsonnet specification typing table transcribed in rules/c02.py. Value-level semantics stay with the repository's tests.",
       "DESIGN.md §2 C02")
+claim("C01",
+      "instance-level call-graph SCC / ownership-cycle analysis, exit-code decision table, who-may-call, concrete-key bound on fmt arguments",
+      "Decides structural necessary conditions of C01, not 'no panic on any input': (R1) no native recursion reachable from the public API "
+      "(whole-workspace instance call graph with closures, stored fn pointers and trait objects; two recorded known findings: parser and "
+      "analyzer recursion) and no recursive drop glue, so evaluation/manifestation/comparison cannot exhaust the native stack; (R2) exit "
+      "status is exactly {0,1,2} by main's mapping and nobody calls process::exit/abort; (R3) run-time width/precision passed to core::fmt "
+      "is bounded by u16::MAX on every path; (R6) unsafe code is forbidden in all crates. Evaluator data-stack balance, index and arithmetic "
+      "panics and unreachable!() reachability are not decided.",
+      "Trusted: rustc MIR and Instance::try_resolve; dependencies are leaves (their own recursion/totality assumed); fn-pointer and dyn "
+      "calls are over-approximated by address-taken functions / all impls.",
+      "DESIGN.md §2 C01")
